@@ -8,7 +8,7 @@ round_tag = sys.argv[2] if len(sys.argv) > 2 else "round1"
 for rf in sorted(glob.glob(f"{res_dir}/*.txt")):
     name = os.path.basename(rf)[:-4]            # C01-1
     pid, n = name.split("-")
-    out = {"round1": f"/tmp/seed/{pid}-out", "r2": f"/tmp/seed2/{pid}-out", "r3": f"/tmp/seed3/{pid}-out"}.get(round_tag, f"/tmp/seed{round_tag[1:]}/{pid}-out")
+    out = {"round1": f"/tmp/seed/{pid}-out", "r2": f"/tmp/seed2/{pid}-out", "r3": f"/tmp/seed3/{pid}-out", "r6": f"/tmp/seed7/{pid}-out"}.get(round_tag, f"/tmp/seed{round_tag[1:]}/{pid}-out")
     ported = os.path.exists(f"{out}/patch{n}.ported.diff")
     text = open(rf).read()
     if "DONE" not in text:
@@ -81,7 +81,7 @@ for rf in sorted(glob.glob(f"{res_dir}/*.txt")):
     meta = {
         "property": pid,
         "source": "independent sub-agent given only the property text and a scratch worktree of /repo",
-        "base_commit": {"round1": "88e0012", "r2": "f1835f9", "r3": "3904c34", "r4": "c990c08"}.get(round_tag, "9160c09"),
+        "base_commit": {"round1": "88e0012", "r2": "f1835f9", "r3": "3904c34", "r4": "c990c08", "r5": "9160c09"}.get(round_tag, "32713bd"),
         "ported": ported,
         "what_and_what_it_needs_to_manifest": sec.strip()[:2500] or "see the agent's notes (not parsed)",
         "confirmation": {
